@@ -9,6 +9,26 @@ def canonicalize(j):
     mods = [m for m in j.get('modules', []) if not m.endswith('::test') and '::test::' not in m]
     crate = j.get('crate', 'desync')
     txt = json.dumps(j)
+    # two types whose names differ only in the module (a new `pipe::DrainWaker` beside `scheduler_future::DrainWaker`) must not
+    # become one: the one that is not at its reviewed path keeps a module suffix (`DrainWaker_pipe`)
+    import os
+    kp = os.path.join(os.path.dirname(os.path.abspath(__file__)), 'known_adt_paths.txt')
+    known_paths = set(open(kp).read().split()) if os.path.exists(kp) else set()
+    groups = {}
+    for a in j.get('adts', []):
+        pth = a.get('path') or ''
+        owner = next((m for m in sorted(mods, key=len, reverse=True) if pth.startswith(m + '::')), None)
+        if owner is None or '::' in pth[len(owner) + 2:]:
+            continue        # items of functions / impls keep their own path
+        groups.setdefault(pth.rsplit('::', 1)[1], []).append(pth)
+    for base, members in groups.items():
+        if len(members) < 2:
+            continue
+        keep = [m for m in members if m in known_paths][:1] or members[:1]
+        for m in members:
+            if m not in keep:
+                mod_last = m.rsplit('::', 2)[-2]
+                txt = re.sub(r'(?<![A-Za-z0-9_])' + re.escape(m) + r'(?![A-Za-z0-9_])', m + '_' + mod_last, txt)
     if mods:
         mods.sort(key=len, reverse=True)
         pat = re.compile(r'(?<![A-Za-z0-9_])(?<!::)(?:' + '|'.join(re.escape(m) for m in mods) + r')::')
